@@ -189,10 +189,16 @@ def oracle(scn, res):
                              "expected": int(expected)}, {"roots": res["roots"], "stderr": res["stderr"].get("T1", "")[-500:]}))
     js = res.get("jobserver")
     if js:
-        if js["tokens_left"] != js["initial_tokens"]:
+        # The harness stands where a redo stands that runs the command as (part of) one job.  Such a redo, when the job
+        # ends, takes ONE byte off the cheat pipe if there is one and then keeps the job's token instead of giving it back:
+        # one cheat byte next to one token too many is a settled account (a sub-redo left on a borrowed slot and its own
+        # runner had looked at the cheat pipe just before -- two deviations deep).  More than one byte, or a difference
+        # that the byte does not explain, is not.  (A make parent has no cheat pipe: there every token counts.)
+        cheats = js["cheats_left"] if not scn.get("no_cheatfds") else 0
+        if js["tokens_left"] - min(cheats, 1) != js["initial_tokens"]:
             out.append(({"kind": "inherited-tokens-not-returned", "scenario": scn["name"], "left": js["tokens_left"],
-                         "initial": js["initial_tokens"]}, {"roots": res["roots"]}))
-        if js["cheats_left"] != 0:
+                         "initial": js["initial_tokens"], "cheat_bytes": js["cheats_left"]}, {"roots": res["roots"]}))
+        if cheats > 1:
             out.append(({"kind": "cheat-token-left-in-pipe", "scenario": scn["name"], "left": js["cheats_left"]}, {"roots": res["roots"]}))
     return out
 
